@@ -227,7 +227,11 @@ Lemma stream_residue_l : forall d c i o e acts ok init,
   let k := match streamInOut i o e c with POk _ k _ _ => k | _ => SnkFile end in
   let f := final_fs k init (fst r) in
   f_tin f = false /\ f_tmp f = false /\
-  (snd r = false -> (k = SnkFile -> f_out f = 0%N) /\ (k <> SnkFile -> f_out f = init)).
+  (snd r = false ->
+     match streamInOut i o e c with
+     | POk _ SnkFile _ _ => f_out f = 0%N      (* the freshly created file is removed again *)
+     | _ => f_out f = init                     (* nothing was created at the output path *)
+     end).
 Proof.
   intros d c i o e acts ok init. unfold run_stream, final_fs.
   unfold streamInOut, open_input, create_of.
@@ -303,14 +307,15 @@ Definition str_in (s : string) (l : list string) : bool := existsb (String.eqb s
    (1) every use of os.Stdout is dominated by log.SetCLILogger(nil);
    (2) os.Stdin is only touched by the two readers;
    (3) a function that looks at "-" and does I/O routes through the stream helper, a stdin
-       helper, a guarded os.Stdout, or refuses "-" at every mention;
+       helper, a guarded os.Stdout, is one of the two stdin readers, or refuses / skips "-" at
+       every mention;
    (4) a function that calls streamInOutForOperation itself hands no text lines to the
        printer (its []string result is nil on every return). *)
 Definition cli_row_ok (r : cli_row) : bool :=
   (implb (c_stdout r) (c_stdout_guarded r))
   && (implb (c_stdin r) (str_in (c_name r) stdin_readers))
   && (implb (negb (Nat.eqb (c_ndash r) 0) && c_does_io r)
-            (c_reach_stream r || c_reach_stdin r || c_stdout r || Nat.eqb (c_nreject r) (c_ndash r)))
+            (c_reach_stream r || c_reach_stdin r || c_stdout r || c_stdin r || Nat.eqb (c_nreject r) (c_ndash r)))
   && (implb (c_stream_direct r) (c_ret_nil r)).
 
 Definition json_row_ok (r : json_row) : bool := j_handler_logoff r || j_cli_logoff r.
@@ -335,7 +340,7 @@ Lemma cli_rows_l : forall r, In r cli_table ->
      forall d c acts, stdout_of (run_direct_stdout (c_stdout_guarded r) d c acts) = writes_of acts)
   /\ (c_stdin r = true -> In (c_name r) stdin_readers)
   /\ (c_ndash r <> 0 -> c_does_io r = true ->
-        c_reach_stream r = true \/ c_reach_stdin r = true \/ c_stdout r = true \/ c_nreject r = c_ndash r)
+        c_reach_stream r = true \/ c_reach_stdin r = true \/ c_stdout r = true \/ c_stdin r = true \/ c_nreject r = c_ndash r)
   /\ (c_stream_direct r = true -> c_ret_nil r = true /\ forall q, stdout_of (print_lines q []) = []).
 Proof.
   intros r Hin.
@@ -355,7 +360,8 @@ Proof.
     destruct (c_reach_stream r); [left; reflexivity|].
     destruct (c_reach_stdin r); [right; left; reflexivity|].
     destruct (c_stdout r); [right; right; left; reflexivity|].
-    simpl in H3. right; right; right. apply Nat.eqb_eq in H3. exact H3.
+    destruct (c_stdin r); [right; right; right; left; reflexivity|].
+    simpl in H3. right; right; right; right. apply Nat.eqb_eq in H3. exact H3.
   - intros Hs. rewrite Hs in H4. simpl in H4. exact H4.
   - intros _ q. apply print_no_lines_l.
 Qed.
